@@ -48,7 +48,10 @@ void vf_sched_note (void);
 int vf_my_waiter_unlinked_by_waker (void);
 long vf_steps (void);
 int vf_plain_sched (void);
+void vf_advance (int64_t ns);
+int vf_waiter_unlinked_by_waker (int k);
 int vf_fiber_blocked (int k);
+void vf_wait_fiber_blocked (int k);
 const int *vf_schedule (int *len); /* recorded schedule of this execution */
 
 /* registry */
